@@ -74,6 +74,15 @@ theorem goAppend_arr (h : Heap) (t : Slice) (bs : List UInt8) :
   · left; rfl
   · right; simp
 
+/-- the slice `append` returns: the argument with a longer visible window (in place), or a slice of a
+new array -/
+theorem goAppend_res (h : Heap) (t : Slice) (bs : List UInt8) :
+    ((goAppend h t bs).2 = { t with len := t.len + bs.length } ∧ t.len + bs.length ≤ t.cap) ∨
+    h.length ≤ (goAppend h t bs).2.arr := by
+  unfold goAppend; split
+  · rename_i hle; left; exact ⟨rfl, hle⟩
+  · right; simp
+
 /-- onto a slice whose capacity equals its length (`s[lo:hi:hi]`) `append` never writes an existing
 array: with nothing to append nothing is written, otherwise the data goes to a new array -/
 theorem goAppend_capped (h : Heap) (t : Slice) (bs : List UInt8) (hc : t.cap = t.len) (a' : Nat)
@@ -174,6 +183,21 @@ theorem subCapped_spec (t : Slice) (lo hi : Nat) (s : Slice) (h : subCapped t lo
   unfold subCapped at h; split at h
   · cases h; simp; omega
   · cases h
+
+/-- `s` is a sub-window of the visible window of `t` -/
+def Within (s t : Slice) : Prop := s.arr = t.arr ∧ t.off ≤ s.off ∧ s.off + s.len ≤ t.off + t.len
+
+theorem Within.refl (s : Slice) : Within s s := ⟨rfl, Nat.le_refl _, Nat.le_refl _⟩
+
+theorem Within.trans {a b c : Slice} (h1 : Within a b) (h2 : Within b c) : Within a c := by
+  unfold Within at *; omega
+
+theorem subWindow_within (t : Slice) (lo hi : Nat) (s : Slice) (h : subWindow t lo hi = some s) : Within s t :=
+  subWindow_spec t lo hi s h
+
+theorem subCapped_within (t : Slice) (lo hi : Nat) (s : Slice) (h : subCapped t lo hi = some s) : Within s t := by
+  have := subCapped_spec t lo hi s h
+  exact ⟨this.1, this.2.2.1, this.2.2.2⟩
 
 theorem subBeyond_spec (t : Slice) (lo hi : Nat) (s : Slice) (h : subBeyond t lo hi = some s) :
     s.arr = t.arr := by
